@@ -38,6 +38,7 @@ type r07 struct {
 	peek2Fn  *types.Func
 	decls    map[*types.Func]*ast.FuncDecl
 	moves    map[*types.Func]bool // functions that may change bsp / bs (transitively)
+	depth    int
 }
 
 func (a *r07) isBsp(e ast.Expr) bool {
@@ -62,10 +63,27 @@ func (a *r07) bspPlus(e ast.Expr) (int, bool) {
 	if a.isBsp(e) {
 		return 0, true
 	}
-	if be, ok := e.(*ast.BinaryExpr); ok && be.Op == token.ADD && a.isBsp(be.X) {
-		if tv := a.info.Types[be.Y]; tv.Value != nil && tv.Value.Kind() == constant.Int {
-			v, _ := constant.Int64Val(tv.Value)
-			return int(v), true
+	if be, ok := e.(*ast.BinaryExpr); ok && be.Op == token.ADD {
+		if base, okb := a.bspPlus(be.X); okb {
+			if tv := a.info.Types[be.Y]; tv.Value != nil && tv.Value.Kind() == constant.Int {
+				v, _ := constant.Int64Val(tv.Value)
+				return base + int(v), true
+			}
+		}
+	}
+	// a local holding the read position plus a constant (next := int(p.bsp) + 1), defined once
+	if id, ok := e.(*ast.Ident); ok {
+		if obj, isVar := a.info.ObjectOf(id).(*types.Var); isVar && !obj.IsField() && a.depth < 4 {
+			for _, fd := range a.decls {
+				if fd.Body != nil && fd.Body.Pos() <= obj.Pos() && obj.Pos() <= fd.Body.End() {
+					if def := singleDef(a.info, fd, obj); def != nil {
+						a.depth++
+						c, okc := a.bspPlus(def)
+						a.depth--
+						return c, okc
+					}
+				}
+			}
 		}
 	}
 	return 0, false
@@ -299,6 +317,8 @@ func runC07(p *Prog, r *Result) {
 		}
 	}
 	a.computeMoves()
+	r.Rule("R07c", "a copy of the read position taken before a call that may refill the buffer is not used after it", 0)
+	checkStaleCursorCopies(p, r, a, "R07c")
 
 	var fos []*types.Func
 	for fo := range a.decls {
@@ -541,6 +561,8 @@ func onFillCycle(g *FGraph, b *FBlock, info *types.Info, fillFn *types.Func) boo
 }
 
 var c07Controls = []Control{
+	{Name: "cursor-restored-after-a-peek", Rule: "R07c", WantKey: "copy of the read position in cr", File: "syntax/lexer.go",
+		Mutate: ctlReplaceAnywhere("\t\t\t} else if p1, p2 := p.peekTwo(); p1 == '\\r' && p2 == '\\n' { // \\\\\\r\\n turns into \\\\\\n\n\t\t\t\tp.col++\n\t\t\t\tp.bsp += 2\n\t\t\t\tp.w, p.r = 2, escNewl\n\t\t\t\treturn escNewl\n\t\t\t}", "\t\t\t} else if p.peek() == '\\r' {\n\t\t\t\tcr := p.bsp\n\t\t\t\tp.bsp++\n\t\t\t\tif p.peek() == '\\n' {\n\t\t\t\t\tp.col++\n\t\t\t\t\tp.bsp++\n\t\t\t\t\tp.w, p.r = 2, escNewl\n\t\t\t\t\treturn escNewl\n\t\t\t\t}\n\t\t\t\tp.bsp = cr\n\t\t\t}")},
 	{Name: "hdoc-tab-skip-looks-at-buffer-only", Rule: "R07a", WantKey: "advanceLitHdoc", File: "syntax/lexer.go",
 		Mutate: ctlReplace("Parser.advanceLitHdoc", "p.quote == hdocBodyTabs && p.peek() == '\\t'", "p.quote == hdocBodyTabs && int(p.bsp) < len(p.bs) && p.bs[p.bsp] == '\\t'", 0)},
 	{Name: "decode-single-refill", Rule: "R07a", WantKey: "rune#forward slice", File: "syntax/lexer.go",
